@@ -10,7 +10,8 @@ run's plot log, and the run is stored once when it stops."
 All statements are about `OPM.Reconnect.step` / `run` (the aggregator's handlers, its engine map and its database
 rows), for every repository variant `c : Cfg` and for *all* histories — lists of `register`, `disconnect`,
 `restart` (graceful: shutdown stores the recent engines, memory is dropped, database kept), `start r`, `stop r`,
-`tags`.  `assoc s` is the run the aggregator associates with the engine: the run of its engine data while it is
+`tags` (one value of the reading X and optionally a value of the System State tag, which may lag or lead the run
+messages in any way).  `assoc s` is the run the aggregator associates with the engine: the run of its engine data while it is
 registered, else the run id in its RecentEngines row.  `quiet r` = every operation except a RunStoppedMsg and a
 RunStartedMsg of another run, i.e. everything that can happen "at every point of run r" without ending it.
 -/
@@ -67,9 +68,25 @@ theorem start_associates (c : Cfg) (s : State) (r : Nat) (m : Mem) (hm : s.mem =
     · simp [step, hm, hr, e, assoc]
 
 example : (run {} init [.register, .start 1, .disconnect, .register]).mem = some { run := some 1 } := by decide
-example : (run {} init [.register, .start 1, .tags (some 1) 4, .restart, .register]).mem = some { run := some 1 } := by
+example : (run {} init [.register, .start 1, .tags (some 1) 4 (some 0), .restart, .register]).mem = some { run := some 1 } := by
   decide
 example : assoc (run {} init [.register, .start 1, .restart, .disconnect]) = some 1 := by decide
+
+/-- **The state the engine last reported does not matter.**  Whatever System State value (or none) the engine data
+holds — "Stopped" right after RunStartedMsg because the tag update with "Running" has not arrived yet, or "Stopped"
+again at the end while the RunStoppedMsg is still on its way — a disconnect or an aggregator restart during run `r`
+writes `r` into the RecentEngines row, and the next registration resumes `r`. -/
+theorem run_kept_whatever_state_was_reported (c : Cfg) (s : State) (m : Mem) (r : Nat) (op : Op)
+    (hm : s.mem = some m) (hr : m.run = some r) (hop : op = .disconnect ∨ op = .restart) :
+    (step c s op).1.recentEngine = some (some r) ∧
+    (step c (step c s op).1 .register).1.mem = some { run := some r } := by
+  rcases hop with h | h <;> subst h <;> simp [step, hm, hr, storeRecentEngine, restored]
+
+-- the two windows: state still "Stopped" (0) when the run has just started; state "Stopped" again before RunStoppedMsg
+example : (run {} init [.register, .tags none 1 (some 0), .start 1, .disconnect, .register]).mem =
+    some { run := some 1 } := by decide
+example : (run {} init [.register, .start 1, .tags (some 1) 2 (some 1), .tags (some 1) 3 (some 0), .restart, .register,
+    .stop 1]).recentRuns = [1] := by decide
 
 /-! ## 2. Tag data after the reconnect goes to that run's plot log -/
 
@@ -86,10 +103,10 @@ theorem wf_init : WF init := ⟨by intro m r h; simp [init] at h, by intro r h; 
 /-- **The first tag message of run `r` after a reconnect is recorded in `r`'s plot log.**  `s` is any reachable state
 in which the engine is gone (disconnected, or the aggregator was restarted) during run `r`; after its registration
 a tags message of run `r` with any tick time `t` adds exactly the row `(i, t)` where `i` is a PlotLogs row of run `r`. -/
-theorem first_tags_after_reconnect_recorded (c : Cfg) (h₀ : List Op) (r t : Nat)
+theorem first_tags_after_reconnect_recorded (c : Cfg) (h₀ : List Op) (r t : Nat) (st : Option Nat)
     (hgone : (run c init h₀).mem = none) (ha : assoc (run c init h₀) = some r) :
     ∃ i, (run c init h₀).plotLogs[i]? = some r ∧
-      (run c init (h₀ ++ [.register, .tags (some r) t])).values = (run c init h₀).values ++ [(i, t)] := by
+      (run c init (h₀ ++ [.register, .tags (some r) t st])).values = (run c init h₀).values ++ [(i, t)] := by
   have w := wf_reachable c h₀ init wf_init
   simp only [run, List.foldl_append, List.foldl_cons, List.foldl_nil]
   simp only [run] at hgone ha w
@@ -97,30 +114,38 @@ theorem first_tags_after_reconnect_recorded (c : Cfg) (h₀ : List Op) (r t : Na
   simp only [assoc, hgone] at ha
   have hrow := join_eq_some ha
   have hl : r ∈ s.plotLogs := w.rowLog r hrow
-  obtain ⟨i, hg, hv⟩ := tagsChanged_recorded { s with mem := some (restored s) } (restored s) r t
+  obtain ⟨i, hg, hv⟩ := tagsChanged_recorded { s with mem := some (restored s) } (restored s) r t st
     (by simp [restored, hrow]) hl (Or.inl (by simp [restored, hrow]))
+  have ht : rowTime (restored s) t st = t := rowTime_eq _ _ _ (Or.inr (Or.inl (by simp [restored, hrow])))
+  rw [ht] at hv
   exact ⟨i, hg, by simpa [step, hgone] using hv⟩
 
 /-- **Any tag message of the current run that passes the persistence threshold is recorded in that run's plot log**,
 in every reachable state (so also long after a reconnect). -/
-theorem tags_recorded_in_run_plot_log (c : Cfg) (h₀ : List Op) (m : Mem) (r t : Nat)
+theorem tags_recorded_in_run_plot_log (c : Cfg) (h₀ : List Op) (m : Mem) (r t : Nat) (st : Option Nat)
     (hm : (run c init h₀).mem = some m) (hr : m.run = some r)
     (hp : m.lastPersisted = none ∨ ∃ lp, m.lastPersisted = some lp ∧ lp < t) :
     ∃ i, (run c init h₀).plotLogs[i]? = some r ∧
-      (run c init (h₀ ++ [.tags (some r) t])).values = (run c init h₀).values ++ [(i, t)] := by
+      (run c init (h₀ ++ [.tags (some r) t st])).values = (run c init h₀).values ++ [(i, rowTime m t st)] := by
   have w := wf_reachable c h₀ init wf_init
   simp only [run, List.foldl_append, List.foldl_cons, List.foldl_nil]
   simp only [run] at hm w
   generalize List.foldl (fun s op => (step c s op).1) init h₀ = s at *
-  obtain ⟨i, hg, hv⟩ := tagsChanged_recorded s m r t hr (w.memLog m r hm hr) hp
+  obtain ⟨i, hg, hv⟩ := tagsChanged_recorded s m r t st hr (w.memLog m r hm hr) hp
   exact ⟨i, hg, by simpa [step, hm] using hv⟩
+
+/-- The row carries the message's own tick time, unless an earlier message left a newer System State time behind
+(the code stamps a persisted batch with the newest tick time it holds). -/
+theorem recorded_row_time (m : Mem) (t : Nat) (st : Option Nat)
+    (h : st.isSome ∨ m.sysTime = none ∨ ∃ u, m.sysTime = some u ∧ u ≤ t) : rowTime m t st = t :=
+  rowTime_eq m t st h
 
 /-- **Nothing is ever recorded anywhere else**: one operation adds at most one value row; the row comes from a tags
 message and hangs on a plot log of the run the engine is in at that moment. -/
 theorem value_rows_only_for_current_run (c : Cfg) (s : State) (op : Op) :
     (step c s op).1.values = s.values ∨
-    ∃ i t r m x, op = .tags x t ∧ (step c s op).1.values = s.values ++ [(i, t)] ∧ s.mem = some m ∧ m.run = some r ∧
-      s.plotLogs[i]? = some r :=
+    ∃ i t r m x st, op = .tags x t st ∧ (step c s op).1.values = s.values ++ [(i, rowTime m t st)] ∧
+      s.mem = some m ∧ m.run = some r ∧ s.plotLogs[i]? = some r :=
   values_step c s op
 
 /-- A plot-log row keeps its run id through every later history: recorded rows stay with their run. -/
@@ -131,8 +156,8 @@ theorem plot_log_rows_are_stable (c : Cfg) (i q : Nat) : ∀ (h : List Op) (s : 
   | nil => intro s hs; exact hs
   | cons op h ih => intro s hs; exact ih _ (plotLogs_step_get c s op i q hs)
 
-example : (run {} init [.register, .start 1, .tags (some 1) 5, .disconnect, .register, .tags (some 1) 3,
-    .restart, .register, .tags (some 1) 9]).values = [(0, 5), (0, 3), (0, 9)] := by decide
+example : (run {} init [.register, .start 1, .tags (some 1) 5 none, .disconnect, .register, .tags (some 1) 3 (some 1),
+    .restart, .register, .tags (some 1) 9 (some 0)]).values = [(0, 5), (0, 3), (0, 9)] := by decide
 
 /-! ## 3. The run is stored once when it stops -/
 
@@ -227,7 +252,7 @@ theorem stop_while_unregistered_refused (c : Cfg) (s : State) (r : Nat) (h : s.m
     step c s (.stop r) = (s, .notRegistered) := by
   simp [step, h]
 
-example : (run {} init [.register, .start 1, .tags (some 1) 5, .disconnect, .register, .restart, .register, .stop 1,
+example : (run {} init [.register, .start 1, .tags (some 1) 5 (some 1), .disconnect, .register, .restart, .register, .stop 1,
     .disconnect, .register, .restart, .register, .start 2]).recentRuns = [1] := by decide
 example : (run ⟨true, true⟩ init [.register, .start 1, .disconnect, .register, .start 1, .stop 1, .restart,
     .register]).recentRuns = [1] := by decide
